@@ -25,9 +25,7 @@ Answer:  model=<dump> spec=<dump> ops=<m/s;m/s;…|_> lazy0=<idxs> lazy1=<idxs> 
   (`lazy0`: root.iter_lazy() with nothing built, `lazy1`: with the `lz` state, `desc`: root.iter_descendants();
    for croot/cprec/cfoll the spec part carries `!` when the operands leave the context root's subtree = F02e region)
   model dump: `ERR:type` | `ERR:bad` | nodes `kind,name,pos,parentIdx,sv` joined by `|`
-  spec  dump: `ERR` | nodes `kind,name,parentIdx,sv,inK` in document order joined by `|`
-              (`inK` = 1 when the node is an element/document whose string value lies in the region
-               excluded by `string_value_concat_partial`, i.e. known finding F02a)
+  spec  dump: `ERR` | nodes `kind,name,parentIdx,sv` in document order joined by `|`
   kinds: D E N A T C P.  ops: model/spec, booleans T F, lists i.j.k or _, `-` = empty / error.
 -/
 import EPV.Proto
@@ -155,34 +153,10 @@ def modelDump (nodes : List Rec) : String :=
     let par := match parentIdx nodes k with | some q => toString q | none => "-1"
     s!"{kindChar r.kind},{encodeStr r.name},{r.pos},{par},{encodeStr (some r.sv)}"
 
-def specDump (items : List (Item × Bool)) : String :=
-  "|".intercalate <| items.map fun (it, k) =>
+def specDump (items : List Item) : String :=
+  "|".intercalate <| items.map fun it =>
     let par := match it.parent with | some q => toString q | none => "-1"
-    s!"{kindChar it.kind},{encodeStr it.name},{par},{encodeStr (some it.sv)},{if k then 1 else 0}"
-
-/-- the F02a flag of every item of `itemsOne` (same traversal, same lengths) -/
-partial def flagsOne (c : Cfg) : XTree → List Bool
-  | .elem name nsmap attrib text kids tail =>
-      let own := 1 + ((inScope c nsmap).filter fun kv => kv.1 != some "xml").length + attrib.length +
-        (if text.isSome then 1 else 0)
-      lateTail (.elem name nsmap attrib text kids tail) :: List.replicate own false ++
-        kids.flatMap fun k => flagsOne c k ++ (if k.tail.isSome then [false] else [])
-  | _ => [false]
-
-/-- spec items paired with their F02a flag -/
-def specItemsK (i : Input) : Option (List (Item × Bool)) :=
-  (specItems i).map fun items =>
-    let isDoc : Bool := match items.head? with | some it => it.kind == .document | none => false
-    let elemRoot : Option XTree := match i.top with
-      | none => none
-      | some top => if isDoc then some top else if i.cfg.lxml then subtreeAt top i.path else some top
-    let flags : List Bool := match elemRoot with
-      | none => [false]
-      | some e =>
-        if isDoc then
-          lateTail e :: (List.replicate (siblingItems 1 i.prolog).length false ++ flagsOne i.cfg e)
-        else flagsOne i.cfg e
-    items.zip (flags ++ List.replicate items.length false)
+    s!"{kindChar it.kind},{encodeStr it.name},{par},{encodeStr (some it.sv)}"
 
 def idxOfPos (nodes : List Rec) (p : Nat) : String :=
   match nodes.findIdx? (·.pos == p) with
@@ -358,7 +332,7 @@ def answer (line : String) : String :=
   match parseInput fs with
   | none => "bad-line"
   | some inp =>
-    let spec := specItemsK inp
+    let spec := specItems inp
     let specS := match spec with
       | none => "ERR"
       | some items => specDump items
@@ -369,7 +343,7 @@ def answer (line : String) : String :=
       let nodes := iter root
       let opsF := field fs "ops"
       let ops := if opsF == "_" || opsF == "" then [] else opsF.splitOn ";"
-      let items := (spec.getD []).map (·.1)
+      let items := spec.getD []
       let opsS := if ops.isEmpty then "_" else ";".intercalate (ops.map fun op =>
         match answerTreeOp root nodes items op with
         | some a => a
